@@ -162,4 +162,23 @@ PROPS = {
             "histories are shrunk and replayed by rapid (operation log printed with the violation); the replay file holds the minimal operation log",
         ],
     },
+    "C03": {
+        "quick": [
+            {"test": "TestC03Route", "checks": 30000, "shards": 3},
+            {"test": "TestC03RouteEnum", "kind": "enum", "shards": 6},
+            {"test": "TestC03BanExtends", "kind": "plain"},
+            {"test": "TestC03History", "checks": 30000, "shards": 3},
+        ],
+        "thorough": [
+            {"test": "TestC03Route", "checks": 1600000, "shards": 8},
+            {"test": "TestC03RouteEnum", "kind": "enum", "shards": 4},
+            {"test": "TestC03BanExtends", "kind": "plain"},
+            {"test": "TestC03History", "checks": 1600000, "shards": 8},
+        ],
+        "assumptions": [
+            "a route is only judged when its own scaffolding does not use the banned name and when the same template compiles in a set without the ban",
+            "bodies of comment / verbatim are not routes (never parsed)",
+            "every probe compiles a template and therefore freezes the set, so bans are observed at the end of a history and at explicit probe steps, not after every step",
+        ],
+    },
 }
